@@ -25,3 +25,20 @@ func ghwr(w io.Writer) *ghostStream { panic("ghost") }
 //
 //gvc:uninterpreted
 func rdin(r io.Reader, k int) byte { panic("ghost") }
+
+// errIs(e, t) = errors.Is(e, t) (observer of the verifier's error model).
+func errIs(err, target error) bool { panic("ghost") }
+
+// ghostConn: per-connection ghost state.
+//   closeSent: a Close frame header has been written to the connection's writer.
+type ghostConn struct {
+	closeSent bool
+}
+
+//gvc:ghost
+func gh(c *Conn) *ghostConn { panic("ghost") }
+
+// errIsCE / errCECode / errCEReason: errors.As(err, *CloseError) and its fields.
+func errIsCE(err error) bool         { panic("ghost") }
+func errCECode(err error) StatusCode { panic("ghost") }
+func errCEReason(err error) string   { panic("ghost") }
